@@ -48,11 +48,11 @@ def run(ck):
   fd = [dict(w) for w in K.WITNESSES if BE in w['backends']]      # canonical witnesses first, then randomised instances
   for fid, (bes, _) in G.FINDING_STREAMS.items():
     if BE not in bes: continue
-    n = cfg['finding_each'] * (5 if fid == G.F10 else 1)
+    n = cfg['finding_each'] * (6 if fid == G.F10 else 1)
     for k in range(n):
       d = G.gen_finding(random.Random(rng.getrandbits(64)), BE, fid)
       if fid == G.F10:                                   # every variant in every run
-        want = ['field-write', 'nested-leaf', 'struct-wire', 'comp-array', 'struct-tmpvar'][k % 5]
+        want = ['field-write', 'nested-leaf', 'struct-wire', 'comp-array', 'struct-tmpvar', 'const-array-field'][k % 6]
         while d['variant'] != want: d = G.gen_finding(random.Random(rng.getrandbits(64)), BE, fid)
       fd.append(d)
   U.run_batch(ck, BE, fd, stats, cfg['ncycles'], 2, tie=False)
